@@ -22,6 +22,7 @@ Grammar (line oriented; '#' starts a comment line; indentation continues a claus
     <indented verus text>
   @closure <ordinal> `<|params|>`
     header: <typed closure header, e.g. |b: HbBucket<T>| -> (o: Bucket<T>)>
+    destructure: <name>     (R19) the closure's parameter is a pattern P: the header names a plain parameter <name> and `let P = <name>;` opens the body
     requires|ensures NAME [P..]: <expr>
 """
 import re
@@ -47,6 +48,7 @@ class Ghost:
 class Closure:
     def __init__(self, ordinal, params):
         self.ordinal, self.params, self.header, self.clauses = ordinal, params, None, []
+        self.destructure = None
 
 
 class Fn:
@@ -153,6 +155,10 @@ def parse(path):
                 base_indent = indent
             elif s.startswith("header:") and isinstance(cur_target, Closure):
                 cur_target.header = s[len("header:"):].strip()
+                last_clause = None
+            elif s.startswith("destructure:") and isinstance(cur_target, Closure):
+                # R19: the closure's pattern parameter becomes a plain parameter (named in `header`) and this `let`
+                cur_target.destructure = s[len("destructure:"):].strip()
                 last_clause = None
             elif isinstance(cur_target, Fn) and s.startswith("ret "):
                 cur_target.ret = s.split()[1]
